@@ -91,9 +91,18 @@ static int feed_len;
 static unsigned long long tun_writes;
 
 ssize_t __real_sendto(int, const void *, size_t, int, const struct sockaddr *, socklen_t);
+static int cli_send_fail;
+static unsigned long long cli_send_failed, n_failed_retransmissions;
+
 ssize_t __wrap_sendto(int fd, const void *buf, size_t len, int flags, const struct sockaddr *to, socklen_t tolen)
 {
 	if (fd == CLI_FD) {
+		if (cli_send_fail) {
+			/* the operating system refuses this transmission (full interface queue, link down) */
+			cli_send_failed++;
+			errno = ENOBUFS;
+			return -1;
+		}
 		cli_sends++;
 		cli_len = len > sizeof(cli_dgram) ? (int)sizeof(cli_dgram) : (int)len;
 		memcpy(cli_dgram, buf, cli_len);
@@ -685,6 +694,16 @@ static int do_payload(const unsigned char *pay, int plen, const char *style)
 		}
 		if (k == 0) { first_sent = sent; first_name = last_dotted; }
 		if (last) { k++; break; }
+		if (drv_below(4) == 0) {
+			/* The answer is slow: the client's timeout fires and it transmits the same chunk again, but this
+			   time sendto() fails.  Then the (late) acknowledgement of the first transmission arrives.  What the
+			   client accounts for must still be what the server has: the next chunk continues at off + sent. */
+			unsigned long long before = cli_send_failed;
+			cli_send_fail = 1;
+			cli_begin("data"); drv_cli_send_chunk(); cli_end();
+			cli_send_fail = 0;
+			if (cli_send_failed != before) n_failed_retransmissions++;
+		}
 		drv_cli_ack_advance();
 	}
 	drv_cli_packet_done();
@@ -838,6 +857,7 @@ out:
 	DRV_X("domain_pairs_run", pairs_run);
 	DRV_X("payload_cases", n_cases);
 	DRV_X("data_chunks", n_chunks);
+	DRV_X("failed_retransmissions_before_late_ack", n_failed_retransmissions);
 	DRV_X("login_prefix_only", n_login_prefix_only);
 	DRV_X("built_name_text_seen", n_txt_seen);
 	DRV_X("builder_reports_seen", n_bh_seen);
